@@ -521,6 +521,17 @@ where S: Clone + Eq + Hash + Debug + Send + Sync + 'static {
             ctx.violate("C13", "width_exceeded", format!("{expansions} states expanded in layer {li} of a {} compilation with max_width {}", ct_name(ct), input.max_width), facts(li).set("expansions", J::i(expansions)));
         }
     };
+    if c12 {
+        // the depth announced for the sub-problem (which is the depth handed to next_variable for its first layer) must be the
+        // number of layers between the problem root and that layer: the path of the sub-problem, replayed on the model with
+        // that many variables decided (explicitly, or skipped where irrelevant), must lead to its state
+        match ctx.oracle.replay(&input.residual.path, Some(input.residual.depth)) {
+            Err(msg) => ctx.violate(p12, "subproblem_depth_inconsistent", format!("the sub-problem is announced at depth {} (handed to next_variable) but its path [{}] does not fit that depth: {msg}", input.residual.depth, fmt_path(&input.residual.path)), facts(0)),
+            Ok(r) => if &r.state != input.residual.state.as_ref() {
+                ctx.violate(p12, "subproblem_depth_inconsistent", format!("the sub-problem is announced at depth {} (handed to next_variable) but replaying its path [{}] over that many layers leads to {:?}, not to its state {:?}", input.residual.depth, fmt_path(&input.residual.path), r.state, input.residual.state), facts(0));
+            },
+        }
+    }
     for ev in log {
         match ev {
             Ev::NextVar { depth, layer: states, var } => {
